@@ -404,7 +404,7 @@ Example C02_about_to_change_writer_example :
   map (PropDefs.values (PropDefs.run fn true 8 (ops1 ++ ops2))) [0; 1; 2] = [Some 7%Z; Some 5%Z; Some 12%Z].
 Proof. vm_compute. repeat split; reflexivity. Qed.
 
-(* ... and, as in section 9, also when everything is interleaved in ANY order: new properties, observers of every kind above, reset(), immediate bindings of fresh properties, of existing unbound ones (which may have readers and observers, but no writing observer of valueAboutToChange) and of bound ones (rebinding), move construction of any property (its observers, writing ones included, move with it), destruction of a property no live binding reads (its observers, writing ones included, die with it: grow_del_b), fresh immediately
+(* ... and, as in section 9, also when everything is interleaved in ANY order: new properties, observers of every kind above, reset(), immediate bindings of fresh properties, of existing unbound ones (which may have readers and observers, but no writing observer of valueAboutToChange) and of bound ones (rebinding), move construction of any property (its observers, writing ones included, move with it), destruction of a property no live binding reads (its observers, writing ones included, die with it: grow_del_b), move assignment over such a property (the source's observers now belong to it, its own are gone with its dead tables: grow_moveassign_b), fresh immediately
    bound properties, assignments (the growth lemmas once more, with `writing observers of both signals allowed`; a freshly created
    property has no valueAboutToChange table, so binding it puts no writing observer on a bound property) *)
 Theorem C02_growing_network_with_writing_observers_of_both_signals_consistent :
@@ -438,4 +438,17 @@ Example C02_destruction_with_writing_observers_example :
               PropDefs.PSet 0 5%Z PropDefs.WSet; PropDefs.PDel 3; PropDefs.PSet 0 7%Z PropDefs.WSet] in
   PropGrowAct2.grow_act2_run_ok fn true 8 PropDefs.world0 ops /\
   map (PropDefs.values (PropDefs.run fn true 8 ops)) [0; 1; 2; 3] = [Some 7%Z; Some 5%Z; Some 12%Z; None].
+Proof. vm_compute. repeat split; try (left; reflexivity); reflexivity. Qed.
+
+(* non-vacuity of the move-assignment case: 0 carries a writer (to 3); 5 - itself with a writer (to 1) that must be gone afterwards - is
+   move-assigned from 0: the binding that read 0 now reads 5, assignments to 5 reach 3 through the moved writer and no longer reach 1 *)
+Example C02_move_assignment_with_writing_observers_example :
+  let fn := fun (f : nat) (l : list Z) => Some (fold_right Z.add 0%Z l) in
+  let ops := [PropDefs.PNew 0 1%Z; PropDefs.PNew 1 0%Z; PropDefs.PNew 3 0%Z; PropDefs.PNew 5 9%Z;
+              PropDefs.PObserve 0 PropDefs.KChanged 100 0 (Some (false, 3));
+              PropDefs.PObserve 5 PropDefs.KChanged 101 1 (Some (false, 1));
+              PropDefs.PBind 2 (PropDefs.EOp2 0 (PropDefs.EProp 0) (PropDefs.EProp 1)) PropDefs.MImmediate;
+              PropDefs.PMoveAssign 5 0; PropDefs.PSet 5 7%Z PropDefs.WSet] in
+  PropGrowAct2.grow_act2_run_ok fn true 8 PropDefs.world0 ops /\
+  map (PropDefs.values (PropDefs.run fn true 8 ops)) [1; 2; 3; 5] = [Some 0%Z; Some 7%Z; Some 7%Z; Some 7%Z].
 Proof. vm_compute. repeat split; try (left; reflexivity); reflexivity. Qed.
